@@ -42,9 +42,12 @@ pub fn families(tier: Tier) -> Vec<Fam> {
     use Fam::*;
     let mut v = vec![
         IntDec(1), IntDec(2), Hex(1), Hex(2), IntBound, IntNeg, HexBound, HexExtra, Keyword, Shebang, Comment,
-        CharLit, StrEsc, StrCont, StrRaw, FStrExtra, FStr(0), FStr(1), FStr(2), Asn, Ipv4, Ipv6, Prefix,
+        CharLit, StrEsc, StrCont, StrRaw, FStrExtra, Asn, Ipv4, Ipv6, Prefix,
         IdentFirst, IdentSecond, IntDec(3), Hex(3), FloatUnd, FloatCore,
     ];
+    for i in 0..fstr_shapes(tier).len() {
+        v.insert(16 + i, FStr(i));
+    }
     if tier == Tier::Thorough {
         v.push(Ipv6All);
     }
@@ -61,10 +64,6 @@ impl Fam {
             Fam::IdentFirst | Fam::IdentSecond => tier.pick(400, 4096),
             _ => tier.pick(1500, 3000),
         }
-    }
-    /// merge runs of consecutive cases that fail identically (Unicode sweeps)
-    pub fn merge_runs(self) -> bool {
-        matches!(self, Fam::IdentFirst | Fam::IdentSecond)
     }
     pub fn count(self, tier: Tier) -> u64 {
         match self {
@@ -84,7 +83,7 @@ impl Fam {
             Fam::StrCont => (ws_runs(tier.pick(2, 3)).len() * 4 * 3 + 5 * 2) as u64,
             Fam::StrRaw => n_texts(RAW.len() as u64, tier.pick(2, 3)),
             Fam::CharLit => (esc_items().len() + RAW_CHARS.len()) as u64,
-            Fam::FStr(i) => n_texts(8, fstr_len(i, tier)).pow(i as u32 + 1),
+            Fam::FStr(i) => fstr_shapes(tier)[i].iter().map(|l| n_texts(8, *l)).product(),
             Fam::FStrExtra => FSTR_EXTRA.len() as u64,
             Fam::Ipv4 => 9u64.pow(4),
             Fam::Ipv6 => 36 * 16 + 16,
@@ -708,20 +707,19 @@ fn char_lit(idx: u64) -> Case {
 
 const FALPHA: [&str; 8] = ["a", "é", "漢", "𝄞", " ", "{{", "}}", "\\n"];
 
-fn fstr_len(interps: usize, tier: Tier) -> usize {
-    match (interps, tier) {
-        (0, Tier::Quick) => 3,
-        (1, Tier::Quick) => 2,
-        (_, Tier::Quick) => 1,
-        (0, Tier::Thorough) => 4,
-        (1, Tier::Thorough) => 3,
-        (_, Tier::Thorough) => 2,
+/// maximal text length of each segment (one more segment than interpolations)
+pub fn fstr_shapes(tier: Tier) -> &'static [&'static [usize]] {
+    match tier {
+        Tier::Quick => &[&[3], &[2, 2], &[1, 1, 1]],
+        Tier::Thorough => &[&[4], &[3, 2], &[2, 3], &[2, 1, 2], &[1, 2, 1]],
     }
 }
 
-fn fstr(interps: usize, tier: Tier, idx: u64) -> Case {
-    let nt = n_texts(8, fstr_len(interps, tier));
-    let d = decode(idx, &vec![nt; interps + 1]);
+fn fstr(shape: usize, tier: Tier, idx: u64) -> Case {
+    let shape = fstr_shapes(tier)[shape];
+    let interps = shape.len() - 1;
+    let rad: Vec<u64> = shape.iter().map(|l| n_texts(8, *l)).collect();
+    let d = decode(idx, &rad);
     let segs: Vec<String> = d.iter().map(|i| text_of(&FALPHA, *i)).collect();
     let inter = ["{7}", "{x}"];
     let shown = ["7", "42"];
